@@ -169,7 +169,7 @@ def setup(opts):
     # (`import time`, `import time as _time`) - by identity, not by attribute name
     import patchall
     import time as _real_time
-    patchall.patch_attr(_real_time, "time", vtime, prefix="taskiq.receiver")
+    patchall.patch_attr(_real_time, "time", vtime, prefix="taskiq.receiver", later_imports=True)
 
     orig_pl = tmsg.TaskiqMessage.parse_labels
 
